@@ -273,6 +273,7 @@ _dispatch_group_wake(dispatch_group_t dg, uint64_t dg_state, bool needs_release)
 	}
 
 	if (needs_release) DISPATCH_VERIF_PROBE(23);
+	else DISPATCH_VERIF_PROBE(25);
 	if (refs) _dispatch_release_n(dg, refs);
 }
 
@@ -348,6 +349,7 @@ _dispatch_group_notify(dispatch_group_t dg, dispatch_queue_t dq,
 			new_state = old_state | DISPATCH_GROUP_HAS_NOTIFS;
 			if ((uint32_t)old_state == 0) {
 				os_atomic_rmw_loop_give_up({
+					DISPATCH_VERIF_PROBE(24);
 					return _dispatch_group_wake(dg, new_state, false);
 				});
 			}
